@@ -221,3 +221,44 @@ def empty_reference_convention(ctx, clause: str):
                f"hypothesis (prefix): an empty reference must score 0 against an empty hypothesis and 1 otherwise, not the "
                f"hypothesis length", rel, c.lineno, sample=u(X)[:120])
     col.floor("empty_reference_sites", sites, 2)
+
+
+def lens_helper_total(ctx, clause: str):
+    """The properties quantify over 'any lengths including empty': the padded sequence dimension itself may have size 0.
+    `_lens_from_eos` locates the first eos with `(...).max(dim)`; unlike sum / any / cumsum, the (values, indices) form of
+    max / min raises on a dimension of size 0, so the helper needs a guard for the empty dimension (or a reduction that is
+    total). Without it every public function that accepts `eos` raises for an empty hypothesis / reference dimension,
+    although the same call without `eos` works."""
+    col, pkg = ctx.col, ctx.pkg
+    f = pkg.func(f"{MOD}::_lens_from_eos")
+    rel = f.module.relname
+    pm = parent_map(f.node)
+    tok, dimp = f.params[0].name, f.params[2].name
+    sites = []
+    for c in own_calls(f.node):
+        if isinstance(c.func, ast.Attribute) and c.func.attr in ("max", "min", "argmax", "argmin", "mode", "median") and c.args \
+                and isinstance(c.args[0], ast.Name) and c.args[0].id == dimp:
+            sites.append(c)
+    guarded = []
+    for c in sites:
+        ok = False
+        for t, pol in guards_of(pm, c):
+            if any(isinstance(x, ast.Name) and x.id == tok for x in ast.walk(t)) and any(
+                    (isinstance(x, ast.Attribute) and x.attr in ("shape",)) or
+                    (isinstance(x, ast.Call) and isinstance(x.func, ast.Attribute) and x.func.attr in ("size", "numel")) for x in ast.walk(t)):
+                ok = True
+        # an earlier `if tok.size(dim) == 0: return ...`
+        for st in f.node.body:
+            if st.lineno >= c.lineno:
+                break
+            if isinstance(st, ast.If) and any(isinstance(x, ast.Return) for x in st.body) and \
+                    any(isinstance(x, ast.Name) and x.id == tok for x in ast.walk(st.test)) and \
+                    any((isinstance(x, ast.Call) and isinstance(x.func, ast.Attribute) and x.func.attr in ("size", "numel")) or
+                        (isinstance(x, ast.Attribute) and x.attr == "shape") for x in ast.walk(st.test)):
+                ok = True
+        guarded.append(ok)
+    col.ob("G23", clause, f"{rel}::_lens_from_eos::index-reduction-guarded-for-the-empty-dimension", bool(sites) and all(guarded),
+           f"`{u(sites[0])[:60] if sites else ''}` takes (values, indices) over the sequence dimension without a guard for size 0: "
+           f"edit_distance / error_rate / prefix_* / optimal_completion with `eos` given raise 'max(): Expected reduction dim to "
+           f"have non-zero size' for an empty hypothesis or reference dimension, although the same inputs work with eos=None",
+           rel, sites[0].lineno if sites else f.line, sample=[u(c)[:60] for c in sites])
